@@ -768,8 +768,23 @@ def mro_lookup(cls, name):
     return None, None
 
 
+def maybe_lift(ctx, obj):
+    """real instances of spydrnet classes that are not IR objects (the namespace manager, ...)
+    are handled as Local records so that their attributes are symbolic state"""
+    import enum
+    if isinstance(obj, (Ref, Local, type, types.ModuleType, types.FunctionType, types.MethodType,
+                        enum.Enum, str, int, tuple, list, dict, set, frozenset, type(None))):
+        return obj
+    mod = getattr(type(obj), "__module__", "") or ""
+    if mod.startswith(ctx.interp_prefixes) and hasattr(obj, "__dict__"):
+        from vf.e1.calls import lift_object
+        return lift_object(ctx, obj)
+    return obj
+
+
 def get_attr(ctx, fr, obj, name):
     from vf.e1 import ops
+    obj = maybe_lift(ctx, obj)
     if isinstance(obj, Ref) or obj is None and False:
         return get_attr_ref(ctx, fr, obj, name)
     if obj is None:
@@ -780,6 +795,9 @@ def get_attr(ctx, fr, obj, name):
             return obj.f[name]
         if name == "__class__":
             return obj.cls
+        for k in obj.cls.__mro__:
+            if (id(k), name) in ctx.attr_over:
+                return ctx.attr_over[(id(k), name)]
         a, owner = mro_lookup(obj.cls, name)
         if a is None:
             raise_if(ctx, fr, True, "AttributeError")
@@ -929,6 +947,7 @@ def read_field(ctx, fr, ref, name):
 
 def set_attr(ctx, fr, obj, name, v):
     from vf.e1 import ops
+    obj = maybe_lift(ctx, obj)
     g = live(ctx, fr)
     if isinstance(obj, Ref):
         groups = {}
